@@ -367,6 +367,7 @@ func newInterpreter(ex *explorer, solver *Solver) *interpreter {
 		extMiss:  map[*ssa.Function]bool{},
 		fnInfos:  map[*ssa.Function]*fnInfo{},
 		funcs:    map[*ssa.Function]bool{},
+		memo:     map[string]string{},
 		nativeCalls: map[string]int64{},
 		trace:    ex.cfg.Trace,
 	}
